@@ -3,7 +3,7 @@
 // Contracts for package profile, checked by /verif/govc (comment-only; compiled only with -tags verif).
 package profile
 
-//@ prelude c07 c01 c12 c16
+//@ prelude c07 c01 c12 c16 c13
 
 //@ func Genvar(hint string) string
 //@   ensures [C07:gen-prefix] hasPrefix(result, "gen_" + hint + "_")
@@ -281,3 +281,16 @@ package profile
 
 //@ func parseMaxExclusive(negated bool, variable Variable, path path.PropertyPath, argument *y.Yaml) (NumericRule, error)
 //@   requires argument != nil
+
+// ---- listed values as data (C13) -----------------------------------------------------------------------------------------
+
+//@ func jsonString(s string) string
+//@   assumed
+//@   ensures [C13:A-JSONQ] result == jsonQuote(s)
+
+// the JSON list of the values, encoded once more as a JSON string and stripped of the outer quotes: exactly what can stand
+// between double quotes in the generated code
+//@ func (r ScalarSetRule) JSONValues() string
+//@   ensures [C13:list-encoded-twice] exists q []string :: len(q) == len(r.Argument) && (forall j int :: 0 <= j && j < len(r.Argument) ==> q[j] == jsonQuote(r.Argument[j])) && "\"" + result + "\"" == jsonQuote("[" + strJoin(q, ",") + "]")
+//@   loop 1 /* for i, v := range r.Argument */
+//@     invariant [C13] len(acc) == len(r.Argument) && (forall j int :: 0 <= j && j < #i ==> acc[j] == jsonQuote(r.Argument[j]))
